@@ -13,3 +13,21 @@ def queries(tier):
         for e in ('h_order', 'h_transitive', 'h_view_ops'):
             qs.append(Query('strings/%s/%s/N%d' % (e, ch, N), 'C15_strings.cpp', e, {'N': N, 'CHAR': ch}, bounds=b, timeout=300))
     return qs
+
+# ---- merged parts: sorting (C13 round) and Value comparisons (C12 round) ----
+import importlib.util as _ilu, os as _os
+def _load(n):
+    p = _os.path.join(_os.path.dirname(_os.path.abspath(__file__)), n + '.py')
+    if not _os.path.exists(p): return None
+    sp = _ilu.spec_from_file_location('spec_' + n, p); m = _ilu.module_from_spec(sp); sp.loader.exec_module(m); return m
+_parts = [m for m in (_load('C15_sort_part'), _load('C15_value_part')) if m is not None]
+_strings_queries = queries
+for _p in _parts:
+    META['functions'] = META['functions'] + _p.META.get('functions', [])
+    META['bounds'] += ' || ' + _p.META.get('bounds', '')
+    META['outside'] += ' || ' + _p.META.get('outside', '')
+    META['assumptions'] = META['assumptions'] + _p.META.get('assumptions', [])
+def queries(tier):
+    qs = _strings_queries(tier)
+    for p in _parts: qs += p.queries(tier)
+    return qs
